@@ -77,6 +77,11 @@ def tfStep (d : D) (ws : List String) : String × D :=
     match now.toInt?, strOfHex fn with
     | some now, some fn => stateLine { d with st := step d.cfg noFault d.st (.tick now fn) false }
     | _, _ => ("bad-op", d)
+  | ["ext", dir, tmpl, rev, data] =>
+    match strOfHex tmpl, rev.toNat?, unhex data with
+    | some tmpl, some rev, some data =>
+      stateLine { d with st := step d.cfg noFault d.st (.ext ⟨dir = "o", tmpl, rev⟩ data) false }
+    | _, _, _ => ("bad-op", d)
   | ["hup"] => stateLine { d with st := step d.cfg noFault d.st .hup false }
   | ["term"] => stateLine { d with st := step d.cfg noFault d.st .term false }
   | ["stopped"] => stateLine { d with st := step d.cfg noFault d.st .stopped false }
